@@ -102,7 +102,7 @@ def gen_names(rng, n, style):
 
 
 def gen_spec(rng, nmax=12, shape=None, nsig=None, side_acts=False, p_init=0.5,
-             name_style='plain', p_clause=0.85, guards=True):
+             name_style='plain', p_clause=0.85, guards=True, decline_pre=False):
   n = rng.randint(1, nmax)
   shape = shape or rng.choice(SHAPES)
   parent = gen_tree(rng, n, shape)
@@ -126,6 +126,9 @@ def gen_spec(rng, nmax=12, shape=None, nsig=None, side_acts=False, p_init=0.5,
         rec = {'k': 'T', 't': rng.randrange(n)}
       else:
         rec = {'k': 'G', 't': rng.choice([None, rng.randrange(n), rng.randrange(n)]), 'm': rng.randint(2, 3)}
+        if decline_pre and rng.random() < 0.6:
+          # what the guard's handler does before it declines: "transition, then veto" or a state query
+          rec['pre'] = rng.choice([['trans', rng.randrange(n)], ['is_in', rng.randrange(n)], ['child_state', i]])
       if side_acts and rng.random() < 0.35:
         rec['acts'] = gen_acts(rng, sigs)
       react['%d:%s' % (i, sg)] = rec
@@ -319,6 +322,15 @@ class Run:
             self.gcount += 1
             fired = self.gcount % r['m'] == 0
             self.log.append(('guard', name, sn, fired))
+            pre = r.get('pre')
+            if pre is not None:
+              # user code that touches the search pointer before it decides
+              if pre[0] == 'trans' and not fired:
+                chart.trans(self.fns[pre[1]])
+              elif pre[0] == 'is_in':
+                chart.is_in(self.fns[pre[1]])
+              elif pre[0] == 'child_state' and chart.state.fun is self.fns[i]:
+                chart.child_state(self.fns[pre[1]])
             if not fired:
               return ret(RS.UNHANDLED)
           self.do_acts(chart, e, r.get('acts'))
